@@ -120,7 +120,8 @@ pub fn partial_authorize(v: &J) -> Result<J, String> {
     }
     let q = partial_request(v.get("request").ok_or("no request")?)?;
     let mut es: Entities = util::entities(v.get("entities").ok_or("no entities")?)?;
-    if v.get("partial_store").and_then(|b| b.as_bool()).unwrap_or(false) {
+    let partial_store = v.get("partial_store").and_then(|b| b.as_bool()).unwrap_or(false);
+    if partial_store {
         es = es.partial();
     }
     let auth = Authorizer::new();
@@ -155,8 +156,41 @@ pub fn partial_authorize(v: &J) -> Result<J, String> {
             let u = util::uid(u)?;
             mapping.insert(u.to_smolstr_key(), ast::Value::from(u.clone()));
         }
+        // ... and so is every entity the partial store could not dereference while producing the
+        // residuals (PartialResponse::unknown_entities at the API level)
+        if partial_store {
+            for (_, (e, _)) in presp.residual_permits.iter().chain(presp.residual_forbids.iter()) {
+                for u in e.unknowns() {
+                    if let Some(ast::Type::Entity { .. }) = &u.type_annotation {
+                        if u.name != "principal" && u.name != "resource" {
+                            if let Ok(uid) = ast::EntityUID::from_str(u.name.as_str()) {
+                                mapping.entry(u.name.clone()).or_insert_with(|| ast::Value::from(uid));
+                            }
+                        }
+                    }
+                }
+            }
+        }
         let cq = util::request(s.get("request").ok_or("no concrete request")?)?;
         let ces = util::entities(s.get("entities").ok_or("no concrete entities")?)?;
+        // third route: Expr::substitute applied to every residual, then CONCRETE evaluation
+        let mut subst_eval = BTreeMap::new();
+        {
+            let ev = cedar_policy_core::evaluator::Evaluator::new(cq.clone(), &ces, cedar_policy_core::extensions::Extensions::all_available());
+            let slots = ast::SlotEnv::new();
+            for (id, (e, _)) in presp.residual_permits.iter().chain(presp.residual_forbids.iter()) {
+                let e2 = e.substitute(&mapping);
+                let st = match ev.interpret(&e2, &slots) {
+                    Ok(v) => match v.value_kind() {
+                        ast::ValueKind::Lit(ast::Literal::Bool(true)) => "sat".to_string(),
+                        ast::ValueKind::Lit(ast::Literal::Bool(false)) => "false".to_string(),
+                        _ => "err:TypeError".to_string(),
+                    },
+                    Err(err) => format!("err:{}", render::eval_err(&err)),
+                };
+                subst_eval.insert(pid(id), st);
+            }
+        }
         let scratch = concrete_view(auth.is_authorized_core(cq, &pset, &ces));
         // reauthorize against the substituted (concrete) entities ...
         let reauth = match presp.reauthorize(&mapping, &auth, &ces) {
@@ -168,7 +202,7 @@ pub fn partial_authorize(v: &J) -> Result<J, String> {
             Ok(r) => concrete_view(r),
             Err(e) => json!({"reauth_error": format!("{e}")}),
         };
-        subs_out.push(json!({"scratch": scratch, "reauth": reauth, "reauth_orig": reauth_orig}));
+        subs_out.push(json!({"scratch": scratch, "reauth": reauth, "reauth_orig": reauth_orig, "subst_eval": subst_eval}));
     }
     out["subs"] = J::Array(subs_out);
     Ok(out)
